@@ -260,6 +260,30 @@ pub fn run(s: &mut Session, ctx: &Ctx) {
             }
         }
     }
+    // angles are reduced modulo a turn: 360·2^j degrees (= 2^j turns, exactly representable) is hue 0,
+    // and an angle plus 2^j turns is the angle (both exactly: the remainder of a float division is exact)
+    for j in 0..=62u32 {
+        let turns = 2f64.powi(j as i32);
+        for sign in ["", "-"] {
+            for (form, zero) in [
+                (format!("lch(50,30,{}{})", sign, 360.0 * turns), "lch(50,30,0)"),
+                (format!("lch(50,30,{}{}turn)", sign, turns), "lch(50,30,0)"),
+                (format!("hsl({}{},50%,50%)", sign, 360.0 * turns), "hsl(0,50%,50%)"),
+                (format!("hsv({}{}turn,50%,50%)", sign, turns), "hsv(0,50%,50%)"),
+                (format!("lch(50,30,{}{})", sign, 360.0 * turns + if j < 40 { 90.0 } else { 0.0 }), if j < 40 && sign.is_empty() { "lch(50,30,90)" } else if j < 40 { "lch(50,30,-450)" } else { "lch(50,30,0)" }),
+            ] {
+                let a = parse_op(s, &form, "whole-turns");
+                let b = parse_op(s, zero, "whole-turns");
+                match (a, b) {
+                    (Some(Some(ca)), Some(Some(cb))) => {
+                        let (x, y) = (ca.to_rgba(), cb.to_rgba());
+                        s.check(x == y, "angle-reduced-modulo-a-turn", "parser::parse_color", || form.clone(), || format!("{:?} but {} is {:?}", x, zero, y));
+                    }
+                    _ => s.fail("angle-reduced-modulo-a-turn", "parser::parse_color", form.clone(), "rejected".into()),
+                }
+            }
+        }
+    }
     let n = if ctx.thorough { 1_200_000 } else { 50_000 };
     for i in 0..n {
         let (base, kind) = render(&mut rng);
